@@ -486,3 +486,109 @@ pub fn gen_stark_config(rng: &mut ChaCha8Rng, degree: usize, small: bool) -> Sta
 pub fn describe_stark_config(c: &StarkConfig) -> Value {
     json!({"num_challenges": c.num_challenges, "rate_bits": c.fri_config.rate_bits, "cap_height": c.fri_config.cap_height, "pow_bits": c.fri_config.proof_of_work_bits, "queries": c.fri_config.num_query_rounds, "strategy": format!("{:?}", c.fri_config.reduction_strategy)})
 }
+
+// ---- lookup-bearing definitions -------------------------------------------------------------------
+
+/// Layout: col 0 table, col 1 frequencies, then looking columns, then one boolean filter column
+/// (if room), remaining columns free. With `cols >= 9` a second lookup uses cols 2 (table), 3
+/// (frequencies) and its own looking columns. Looking expressions include plain columns, linear
+/// combinations with a constant, and next-row columns. No public inputs are referenced.
+pub fn gen_lookup_family(rng: &mut ChaCha8Rng, cols: usize, pis: usize, degree: usize, log_n: usize) -> Generated {
+    assert!(cols >= 4 && (degree == 2 || degree == 3));
+    let n = 1usize << log_n;
+    let bset = gen::boundary_set();
+    let mut spec = Spec { cols, pis, degree, name: format!("lookup{cols}d{degree}"), ..Default::default() };
+    let mut trace = vec![vec![0u64; n]; cols];
+    let two = cols >= 9;
+    let groups: Vec<(usize, usize, Vec<usize>)> = if two {
+        let rest: Vec<usize> = (4..cols - 1).collect();
+        let (a, b) = rest.split_at(rest.len() / 2);
+        vec![(0, 1, a.to_vec()), (2, 3, b.to_vec())]
+    } else {
+        vec![(0, 1, (2..cols - 1).collect())]
+    };
+    let filter_col = cols - 1;
+    // boolean filter column, constrained to be boolean on every row
+    spec.cons.push(Cons { kind: Kind::All, poly: vec![Mono { c: 1, f: vec![Term::L(filter_col), Term::L(filter_col)] }, Mono { c: neg(1), f: vec![Term::L(filter_col)] }], what: format!("local[{filter_col}] boolean (lookup filter)") });
+    for r in 0..n {
+        trace[filter_col][r] = rng.gen_range(0..2);
+    }
+    for (gi, (tcol, fcol, lcols)) in groups.iter().enumerate() {
+        // table values: a range, small values with repeats, or boundary-biased values
+        let style = rng.gen_range(0..3);
+        for r in 0..n {
+            trace[*tcol][r] = match style {
+                0 => r as u64,
+                1 => rng.gen_range(0..(n as u64 / 2).max(2)),
+                _ => gen::canon_u64(rng, &bset),
+            };
+        }
+        let tvals: Vec<u64> = trace[*tcol].clone();
+        let pick = |rng: &mut ChaCha8Rng| tvals[rng.gen_range(0..n)];
+        let mut looking = vec![];
+        let mut filters = vec![];
+        let mut k = 0;
+        while k < lcols.len() {
+            let c = lcols[k];
+            let kind = rng.gen_range(0..4);
+            if kind == 1 && k + 1 < lcols.len() {
+                // linear combination a + coeff*b + constant over two columns
+                let b = lcols[k + 1];
+                let coeff = rng.gen_range(1..1000u64);
+                let constant = gen::canon_u64(rng, &bset);
+                for r in 0..n {
+                    let t = pick(rng);
+                    let vb = rng.gen_range(0..1u64 << 16);
+                    trace[b][r] = vb;
+                    trace[c][r] = rsub(rsub(t, rmul(coeff, vb)), constant);
+                }
+                looking.push(ColSpec { local: vec![(c, 1), (b, coeff)], next: vec![], constant });
+                filters.push(None);
+                k += 2;
+                continue;
+            }
+            for r in 0..n {
+                trace[c][r] = pick(rng);
+            }
+            if kind == 2 {
+                looking.push(ColSpec { local: vec![], next: vec![(c, 1)], constant: 0 });
+                filters.push(None);
+            } else if kind == 3 && gi == 0 {
+                // filtered column: rows with filter 0 may hold anything
+                for r in 0..n {
+                    if trace[filter_col][r] == 0 && rng.gen_bool(0.5) {
+                        trace[c][r] = gen::canon_u64(rng, &bset);
+                    }
+                }
+                looking.push(ColSpec::single(c));
+                filters.push(Some(filter_col));
+            } else {
+                looking.push(ColSpec::single(c));
+                filters.push(None);
+            }
+            k += 1;
+        }
+        let ls = LookupSpec { looking, filters, table: *tcol, freq: *fcol };
+        // frequencies: all occurrences credited to the first row holding the value
+        let mut first_row: std::collections::BTreeMap<u64, usize> = Default::default();
+        for r in 0..n {
+            first_row.entry(tvals[r]).or_insert(r);
+        }
+        for (kk, col) in ls.looking.iter().enumerate() {
+            for r in 0..n {
+                let f = match ls.filters[kk] {
+                    Some(fc) => trace[fc][r],
+                    None => 1,
+                };
+                if f != 0 {
+                    let v = col.eval(&trace, r);
+                    let row = first_row[&v];
+                    trace[*fcol][row] = radd(trace[*fcol][row], f);
+                }
+            }
+        }
+        spec.lookups.push(ls);
+    }
+    let pi_vals: Vec<u64> = (0..pis).map(|_| gen::canon_u64(rng, &bset)).collect();
+    Generated { spec, trace, pis: pi_vals }
+}
